@@ -358,3 +358,37 @@ fn db_init_file_layout() {
     std::mem::forget(f);
 }
 
+
+// ---- C10-Ob4: a free list that spans more than one page (overflow run) is reloaded completely on open
+// (profile set32: the sorted-set model holds 32 entries there)
+// @ob props=C10,C02 tier=quick cap=900 mem=8 profile=set32 native=no fns=DBInner::open,DBInner::meta,Freelist::init,Page::freelist,Page::from_buf bound="concrete (one execution): 256-byte pages, free-list page 2 with 30 ids (2-page run: 40 + 240 bytes), both headers name it" unwind=35
+#[kani::proof]
+#[kani::unwind(35)]
+fn db_open_reloads_long_freelist() {
+    lay_meta(0, 0, 6, 5, 0, 64, 2, PS);
+    lay_meta(1, 1, 7, 5, 0, 64, 2, PS);
+    let mut ids = [0u64; 30];
+    let mut i = 0;
+    while i < 30 {
+        ids[i] = 10 + i as u64;
+        i += 1;
+    }
+    lay_freelist(2, &ids); // 32 + 240 bytes: runs into page 3
+    let d = jv_env::disk();
+    unsafe {
+        let p = &mut *(d.as_mut_ptr().add((2 * PS) as usize) as *mut Page);
+        p.overflow = 1;
+    }
+    lay_empty_leaf(5);
+    d.len = 12 * PS as usize;
+    let r = DBInner::open(File::raw(), PS, DBFlags { strict_mode: false, mmap_populate: false, direct_writes: false });
+    assert!(r.is_ok());
+    if let Ok(db) = r {
+        let fl = db.freelist.peek();
+        assert!(crate::freelist::jv::n_free(fl) == 30, "every id of a multi-page free list is reloaded");
+        assert!(crate::freelist::jv::is_free(fl, 10) && crate::freelist::jv::is_free(fl, 36) && crate::freelist::jv::is_free(fl, 37) && crate::freelist::jv::is_free(fl, 39),
+                "including the ids stored beyond the first page of the run");
+        assert!(d.nops == 0);
+        std::mem::forget(db);
+    }
+}
